@@ -379,9 +379,12 @@ def readZPairs : Nat → Bytes → Res (List (Bytes × Nat))
     (readFixed 8 r).bind fun sc r' =>
     (readZPairs n r').map ((m, leVal sc) :: ·)
 
-/-- `StreamId::parse_u64_fast`: digits only (the empty string gives 0), wrapping arithmetic. -/
+/-- `StreamId::parse_u64_fast` (tree after commit 337653b): at least one byte, ASCII digits only,
+    `checked_mul`/`checked_add` — i.e. a decimal numeral whose value fits `u64`. -/
 def parseU64Fast (bs : Bytes) : Option Nat :=
-  if bs.all isDigit then some (bs.foldl (fun a d => (a * 10 + (d - 48)) % two64) 0) else none
+  match digitsVal bs with
+  | some v => if v < two64 then some v else none
+  | none => none
 
 /-- split at the first `-` -/
 def splitDash : Bytes → Option (Bytes × Bytes)
